@@ -81,10 +81,20 @@ impl<T> HostMatcher<T> {
             !matcher.is_empty()
         });
 
+        // retain only accepts a Fn closure, so the removed route is kept in a cell
+        let removed_in_tree = std::cell::RefCell::new(None);
+
         self.regex_tree_rule.retain(&|_, matcher| {
-            matcher.remove(id);
+            if let Some(value) = matcher.remove(id) {
+                *removed_in_tree.borrow_mut() = Some(value);
+            }
+
             !matcher.is_empty()
         });
+
+        if removed.is_none() {
+            removed = removed_in_tree.into_inner();
+        }
 
         if removed.is_some() {
             self.count -= 1;
